@@ -71,10 +71,11 @@ def oracle(ctx, search):
     if not wit or not wit[0].get("as_stated"):
         fails.append(Fail(key="evap-day-witness-not-as-stated", what="the real Water kernel does not behave on the witness input as "
                           "C06_lower_bound_day_evap_refuted states for the model: %s" % wit[:1]))
-    for l in orc + [t for t in torc + orc1 if t.startswith(("wg-", "state-not-finite", "fc-below-gw", "fc-after-gw-change", "substep-"))]:
-        fails.append(Fail(key=re.sub(r"(value|wg|start|end|fc|limit|maxcaps|w|porges|soil-fc|pore-volume|wmin|soil-wmin|zeit|grw|increment)=\S+", "", l)[:100].strip(), what=l))
+    for l in orc + [t for t in torc + orc1 if t.startswith(("wg-", "state-not-finite", "fc-below-gw", "fc-after-gw-change", "substep-", "volume-fraction-out-of-range", "table-params-not-a-function-of-level"))]:
+        fails.append(Fail(key=re.sub(r"(value|wg|start|end|fc|limit|maxcaps|w|porges|soil-fc|pore-volume|wmin|soil-wmin|zeit|grw|increment|was)=\S+", "", l)[:100].strip(), what=l))
     days = [x for x in tcases if x["k"] == "day"]
     ctx.extra["traced_days_checked_for_bounds_and_finiteness"] = len(days)
+    ctx.extra["table_route_days_at_a_groundwater_level_seen_before"] = max([x.get("table_route_level_repeats", 0) for x in tcases if x["k"] == "run"] or [0])
     # hypothesis of C06_lower_bound_day_nonevap observed on the real runs
     ctx.extra["traced_days_where_the_clamped_uptake_does_not_fit_below_field_capacity"] = sum(1 for d in days if d.get("uptake_fits") is False)
     ctx.extra["traced_days_with_net_evaporation_and_more_than_one_substep"] = sum(
